@@ -103,6 +103,14 @@ def check_case(case, acc):
                 acc.fail("pc_n/container-or-zero-entries", ("pc_n", tuple(int(c) for c in counts_variant), type(counts_variant).__name__), exp, r)
             else:
                 acc.ok()
+        # two-sample form with the very same object on both sides: cross pairs include i == j
+        xs_same = np.array([LABELS["str"](i) for i in t])
+        r = acc.call(pyrepseq.pc, xs_same, xs_same)
+        e2 = ref_pc2(t, t)
+        if not _exact(r, e2):
+            acc.fail("pc/two-sample/same-object", ("pc2", tuple(xs_same.tolist()), tuple(xs_same.tolist())), e2, r)
+        else:
+            acc.ok()
         for lname, lab in LABELS.items():
             if N > 7:
                 continue
